@@ -150,11 +150,13 @@ D(prog, tables, m, p, env, d, h, I) ==
          VSchema(WithAn(Sch("object", "", 0, [j \in 1..Len(nd.a) |->
                        LET v == sub(j, d) IN IF v.vk = "prop" THEN v.s ELSE PropS("BOTTOM", 0, Cut)]), J))
     [] nd.k = "prop" ->
-         \* required: the annotation, else the mark, else a `required` annotation of the value's schema
+         \* required: the annotation, else the mark; without either, a `required` annotation of the value's schema decides
+         \* for a property of an object schema (fl = 2) but is not consulted for parameters and headers (the emitter reads
+         \* it only in object_type: a deviation the language does not settle, mirrored here and named in DESIGN.md)
          LET sc == schemaAt(1)
              fl == IF AHas(J, "required") THEN (IF AVal(J, "required") = "true" THEN 1 ELSE 0)
                    ELSE IF nd.n = 1 THEN 1 ELSE IF nd.n = 2 THEN 0
-                   ELSE IF AVal(sc.an, "required") = "true" THEN 1 ELSE 0
+                   ELSE IF AVal(sc.an, "required") = "true" THEN 2 ELSE 0
          IN VProp([PropS(nd.s, fl, sc) EXCEPT !.an = Pick(J, {"description"})])
     [] nd.k = "un" -> LET v == Und(sub(1, d)) IN
                       IF v.vk = "prop" THEN VProp([v.s EXCEPT !.fl = IF nd.s = "!" THEN 1 ELSE 0]) ELSE VBottom("un")
